@@ -47,3 +47,45 @@ func (mock *M) Get(a int) {
 		}
 	}
 }
+
+// Locals that alias the receiver or one of its slices are followed; the parts
+// of a for statement are probed.
+func TestAliasesAndLoopParts(t *testing.T) {
+	src := `package p
+
+import "sync"
+
+type M struct {
+	mu    sync.RWMutex
+	calls []struct{ A int }
+	n     int
+}
+
+func (mock *M) Zero() {
+	mock.mu.RLock()
+	calls := mock.calls
+	mock.mu.RUnlock()
+	for i := mock.n; i < len(calls); i++ {
+		if i == 3 {
+			continue
+		}
+		calls[i] = struct{ A int }{}
+	}
+	m := mock
+	m.calls = nil
+	for j := 0; j < mock.n; mock.n-- {
+		_ = j
+	}
+}
+`
+	out, err := InstrumentMock([]byte(src))
+	if err != nil {
+		t.Fatal(err)
+	}
+	got := string(out)
+	for _, want := range []string{`moqsimrt.W(&calls[i], "calls[i]")`, `moqsimrt.W(&m.calls, "calls")`, `moqsimrt.R(&mock.n, "n")`, `moqsimrt.W(&mock.n, "n")`} {
+		if !strings.Contains(got, want) {
+			t.Fatalf("missing %q in:\n%s", want, got)
+		}
+	}
+}
